@@ -5,23 +5,22 @@
   inverted range selects nothing."
 
   The repositories compute ranges with SQLite's `LIMIT offset, count`, which does not clamp: a
-  negative offset is 0 and a negative count is "no limit". So the full-strength statements are
-  false of the list code (D01). What is proved here, for every list and every pair of integers:
+  negative offset is 0 and a negative count is "no limit". The list statements used to pass the
+  normalised bounds straight through (D01) and failed with `LIMIT NULL` on a missing key with a
+  negative bound (D02); both are repaired in the Go tree (the `bounds` CTE clamps the start to 0, the
+  count to ≥ 0 and takes a missing length as 0). What is proved here, for every list and every pair of
+  integers, at full strength and with no hypotheses:
 
-    * `Range`, `Trim`: model = Redis rule exactly when a decidable classifier is off
-      (`*_refines_partial` one way, `*_classifier_exact` the other way), with concrete witnesses
-      that every classified deviation is real;
+    * `Range`, `Trim`: model = Redis rule (`range_refines`, `trim_refines`); the window is always
+      defined (`range_window_defined`, also on a missing key);
     * `Get`/`Set` index, `RangeWith.ByRank`, `DeleteWith.ByRank`, `ByScore` offset/count, `Len`:
-      model = Redis rule at full strength. (`DeleteWith.ByRank` was D09: it lacked the
-      `start > stop` guard and reached SQLite as `limit a, <negative>`. The guard is now there,
-      `rank_delete_refines` has no hypotheses; what the raw statement does without the guard is
-      kept as `raw_rank_limit_exact` / `raw_rank_limit_deviates`.)
+      model = Redis rule. (`DeleteWith.ByRank` was D09: it lacked the `start > stop` guard and
+      reached SQLite as `limit a, <negative>`. The guard is now there.)
 
-  Two region claims that were expected to hold are FALSE and are refuted below
-  (`range_ordinary_region_claim_false`, `range_nonneg_region_claim_false`): `Range(2, 0)` on
-  `[a,b,c]` has in-range non-negative bounds, escapes the Go shortcut (it needs both bounds
-  strictly of one sign), reaches SQLite as `LIMIT 2, -1` and returns `[c]` where Redis returns `[]`.
-  The corrected, exact regions follow them.
+  What the RAW statements do without the clamps/guards is kept, with exact classifiers and witnesses:
+  `raw_range_limit_exact` / `raw_range_limit_deviates*` (D01) and `raw_rank_limit_exact` /
+  `raw_rank_limit_deviates` (D09) — a change that removes a clamp or a guard falls back into exactly
+  these regions.
 
   Only property theorems and non-vacuity examples live here; definitions and lemmas are in
   `RedkaModel/Proofs/Index.lean`.
@@ -34,163 +33,64 @@ open Redka Redka.Model Redka.Proofs.Index
 
 /-! ### LRANGE -/
 
-/-- with a cached length the `bounds` CTE never produces `LIMIT NULL` -/
-theorem range_window_defined {α} (n a b : Int) (l : List α) :
-    Model.rangeWindow (some n) a b l ≠ none :=
-  rangeWindow_some_ne_none n a b l
+/-- the `bounds` CTE never produces `LIMIT NULL`, with a cached length or (D02, repaired) without one -/
+theorem range_window_defined {α} (len : Option Int) (a b : Int) (l : List α) :
+    Model.rangeWindow len a b l ≠ none :=
+  rangeWindow_ne_none len a b l
 
-/-- D02: on a missing key (`len` NULL) the statement fails exactly when a bound is negative -/
-theorem range_window_missing_key {α} (a b : Int) (l : List α) :
-    Model.rangeWindow none a b l = none ↔ a < 0 ∨ b < 0 :=
-  rangeWindow_none_iff a b l
+/-- a missing key has no rows: the window is empty whatever the bounds -/
+theorem range_window_missing_key {α} (a b : Int) :
+    Model.rangeWindow none a b ([] : List α) = some [] :=
+  rangeWindow_nil none a b
 
-theorem range_refines_partial {α} (l : List α) (a b : Int)
-    (h : rangeDeviates l.length a b = false) : modelRange l a b = Spec.lrange l a b :=
-  (range_eq_iff l a b).2 h
+/-- `Range` is the Redis rule, for every list and every pair of integers (D01 repaired) -/
+theorem range_refines {α} (l : List α) (a b : Int) : modelRange l a b = Spec.lrange l a b :=
+  range_eq l a b
 
-/-- the classifier is exact: whenever it fires, the answer is wrong, for every list -/
-theorem range_classifier_exact {α} (l : List α) (a b : Int)
-    (h : rangeDeviates l.length a b = true) : modelRange l a b ≠ Spec.lrange l a b := by
-  intro he
-  have := (range_eq_iff l a b).1 he
-  rw [h] at this
-  exact Bool.noConfusion this
+/-- the RAW window `limit s, e - s + 1` on the normalised bounds (what the statement did before the
+clamps): the Redis slice exactly when `rawSliceDeviates` is off -/
+theorem raw_range_limit_exact {α} (l : List α) (a b : Int) :
+    sqlLimit (Spec.normIdx l.length a) (Spec.normIdx l.length b - Spec.normIdx l.length a + 1) l =
+      Spec.lrange l a b ↔
+    rawSliceDeviates l.length (Spec.normIdx l.length a) (Spec.normIdx l.length b) = false := by
+  rw [lrange_eq_clampSlice]
+  exact raw_sqlLimit_eq_clampSlice_iff l _ _
 
-theorem range_deviates_1 :
-    modelRange ['a', 'b', 'c'] (-5) 0 ≠ Spec.lrange ['a', 'b', 'c'] (-5) 0 := by decide
-theorem range_deviates_2 :
-    modelRange ['a', 'b', 'c'] 0 (-5) ≠ Spec.lrange ['a', 'b', 'c'] 0 (-5) := by decide
-theorem range_deviates_3 :
-    modelRange ['a', 'b', 'c'] 1 (-5) ≠ Spec.lrange ['a', 'b', 'c'] 1 (-5) := by decide
-/-- in-range, non-negative bounds: `LIMIT 2, -1` -/
-theorem range_deviates_4 :
-    modelRange ['a', 'b', 'c'] 2 0 ≠ Spec.lrange ['a', 'b', 'c'] 2 0 := by decide
-/-- what the code answers there -/
-theorem range_deviates_4_value :
-    modelRange ['a', 'b', 'c'] 2 0 = ['c'] ∧ Spec.lrange ['a', 'b', 'c'] 2 0 = [] := by decide
+/-- what D01 was: in-range, non-negative bounds `Range(2, 0)` reached SQLite as `LIMIT 2, -1` -/
+theorem raw_range_limit_deviates :
+    sqlLimit 2 (0 - 2 + 1) ['a', 'b', 'c'] = ['c'] ∧ Spec.lrange ['a', 'b', 'c'] 2 0 = [] := by decide
+/-- … and `Range(-5, 0)` on three elements as `LIMIT -2, 3` -/
+theorem raw_range_limit_deviates_neg :
+    sqlLimit (-2) (0 - (-2) + 1) ['a', 'b', 'c'] = ['a', 'b', 'c'] ∧
+      Spec.lrange ['a', 'b', 'c'] (-5) 0 = ['a'] := by decide
+/-- the former witnesses now agree -/
+theorem range_now_agrees :
+    modelRange ['a', 'b', 'c'] 2 0 = [] ∧ modelRange ['a', 'b', 'c'] (-5) 0 = ['a'] ∧
+      modelRange ['a', 'b', 'c'] 0 (-5) = [] ∧ modelRange ['a', 'b', 'c'] 1 (-5) = [] := by decide
 
-/-- CLAIM REFUTED: "no deviation when both indexes are in range (either sign)". -/
-theorem range_ordinary_region_claim_false :
-    ¬ ∀ (n : Nat) (a b : Int), -(n : Int) ≤ a → a < n → -(n : Int) ≤ b → b < n →
-        rangeDeviates n a b = false := by
-  intro h
-  exact absurd (h 3 2 0 (by decide) (by decide) (by decide) (by decide)) (by decide)
-
-/-- CLAIM REFUTED: "no deviation when both bounds are non-negative". -/
-theorem range_nonneg_region_claim_false :
-    ¬ ∀ (n : Nat) (a b : Int), 0 ≤ a → 0 ≤ b → rangeDeviates n a b = false := by
-  intro h
-  exact absurd (h 3 2 0 (by decide) (by decide)) (by decide)
-
-/-- corrected: with the start index in range (the stop may be anything) the only deviation is an
-inversion by more than one position that the Go shortcut does not catch (bounds not strictly of
-one sign) -/
-theorem range_ordinary_region (n : Nat) (a b : Int) (ha : -(n : Int) ≤ a) (ha' : a < n) :
-    rangeDeviates n a b = true ↔
-      Model.rangePrecheck a b = false ∧ Spec.normIdx n b + 1 < Spec.normIdx n a := by
-  unfold rangeDeviates trimDeviates sliceDeviates Spec.normIdx
-  cases hp : Model.rangePrecheck a b
-  · simp only [Bool.not_false, Bool.true_and, true_and]
-    split <;> split <;> split <;> simp only [decide_eq_true_eq] <;> omega
-  · simp
-
-/-- in particular: in-range indexes that are not inverted by more than one never deviate -/
-theorem range_ordinary_region_ordered (n : Nat) (a b : Int)
-    (ha : -(n : Int) ≤ a) (ha' : a < n) (_ : -(n : Int) ≤ b) (_ : b < n)
-    (hab : Spec.normIdx n a ≤ Spec.normIdx n b + 1) : rangeDeviates n a b = false := by
-  cases h : rangeDeviates n a b
-  · rfl
-  · have := ((range_ordinary_region n a b ha ha').1 h).2
-    omega
-
-/-- corrected: with non-negative bounds, however large, the only deviation is `Range(a, 0)` with
-`2 ≤ a < n` -/
-theorem range_nonneg_region (n : Nat) (a b : Int) (ha : 0 ≤ a) (hb : 0 ≤ b) :
-    rangeDeviates n a b = true ↔ b = 0 ∧ 2 ≤ a ∧ a < n := by
-  have ha' : ¬ a < 0 := by omega
-  have hb' : ¬ b < 0 := by omega
-  unfold rangeDeviates trimDeviates sliceDeviates Spec.normIdx Model.rangePrecheck
-  simp only [ha', hb', if_false, ha, if_true, decide_false, Bool.and_false, Bool.or_false,
-    Bool.and_eq_true, Bool.not_eq_true', decide_eq_true_eq, decide_eq_false_iff_not,
-    Bool.and_eq_false_iff]
-  omega
-
-theorem range_pos_stop_region (n : Nat) (a b : Int) (ha : 0 ≤ a) (hb : 0 < b) :
-    rangeDeviates n a b = false := by
-  cases h : rangeDeviates n a b
-  · rfl
-  · have := (range_nonneg_region n a b ha (by omega)).1 h
-    omega
-
-/-- the exact non-deviating region, on the normalised bounds `s`, `e` -/
-theorem range_exact_region (n : Nat) (a b : Int) :
-    rangeDeviates n a b = false ↔
-      Model.rangePrecheck a b = true ∨
-      (0 ≤ Spec.normIdx n a ∧
-        ((n : Int) ≤ Spec.normIdx n a ∨ Spec.normIdx n a ≤ Spec.normIdx n b + 1)) ∨
-      (Spec.normIdx n a < 0 ∧
-        (n = 0 ∨ Spec.normIdx n b + 1 = Spec.normIdx n a ∨ (n : Int) ≤ Spec.normIdx n b + 1)) := by
-  unfold rangeDeviates trimDeviates sliceDeviates
-  generalize Spec.normIdx n a = s
-  generalize Spec.normIdx n b = e
-  cases hp : Model.rangePrecheck a b
-  · simp only [Bool.not_false, Bool.true_and, Bool.false_eq_true, false_or]
-    split <;> simp only [decide_eq_false_iff_not] <;> omega
-  · simp
+/-- the exact region where the raw form is right, on the normalised bounds -/
+theorem raw_slice_exact_region (n : Nat) (s e : Int) :
+    rawSliceDeviates n s e = false ↔
+      (0 ≤ s ∧ ((n : Int) ≤ s ∨ s ≤ e + 1)) ∨
+      (s < 0 ∧ (n = 0 ∨ e + 1 = s ∨ (n : Int) ≤ e + 1)) := by
+  unfold rawSliceDeviates
+  split <;> simp only [decide_eq_false_iff_not] <;> omega
 
 /-! ### LTRIM -/
 
-theorem trim_refines_partial {α} (l : List α) (a b : Int)
-    (h : trimDeviates l.length a b = false) : modelTrimKeep l a b = Spec.ltrim l a b :=
-  (trim_eq_iff l a b).2 h
+/-- `Trim` keeps the Redis window, for every list and every pair of integers (D01 repaired) -/
+theorem trim_refines {α} (l : List α) (a b : Int) : modelTrimKeep l a b = Spec.ltrim l a b :=
+  trim_eq l a b
 
-theorem trim_classifier_exact {α} (l : List α) (a b : Int)
-    (h : trimDeviates l.length a b = true) : modelTrimKeep l a b ≠ Spec.ltrim l a b := by
-  intro he
-  have := (trim_eq_iff l a b).1 he
-  rw [h] at this
-  exact Bool.noConfusion this
+/-- the former witnesses now agree: `Trim(-5, 0)` keeps the head, `Trim(3, 1)` nothing -/
+theorem trim_now_agrees :
+    modelTrimKeep ['a', 'b', 'c'] (-5) 0 = ['a'] ∧ modelTrimKeep [0, 1, 2, 3, 4] 3 1 = [] ∧
+      modelTrimKeep ['a', 'b', 'c'] 0 (-5) = [] ∧ modelTrimKeep ['a', 'b', 'c'] 5 1 = [] := by decide
 
-/-- `Trim(-5, 0)` keeps everything -/
-theorem trim_deviates_1 :
-    modelTrimKeep ['a', 'b', 'c'] (-5) 0 = ['a', 'b', 'c'] ∧
-      Spec.ltrim ['a', 'b', 'c'] (-5) 0 = ['a'] := by decide
-/-- `Trim(5, 1)` on five elements: nothing to keep, but `Trim(3, 1)` keeps the tail -/
-theorem trim_deviates_2 :
-    modelTrimKeep [0, 1, 2, 3, 4] 3 1 = [3, 4] ∧ Spec.ltrim [0, 1, 2, 3, 4] 3 1 = [] := by decide
-theorem trim_deviates_3 :
-    modelTrimKeep ['a', 'b', 'c'] 0 (-5) ≠ Spec.ltrim ['a', 'b', 'c'] 0 (-5) := by decide
-/-- start past the end is harmless even with a negative count -/
-theorem trim_past_end : modelTrimKeep ['a', 'b', 'c'] 5 1 = Spec.ltrim ['a', 'b', 'c'] 5 1 := by
-  decide
-
-/-- `Range` deviates exactly where `Trim` does, minus the Go shortcut -/
-theorem range_deviates_iff_trim (n : Nat) (a b : Int) :
-    rangeDeviates n a b = true ↔ Model.rangePrecheck a b = false ∧ trimDeviates n a b = true := by
-  unfold rangeDeviates
-  cases Model.rangePrecheck a b <;> simp
-
-/-- the exact non-deviating region for `Trim` -/
-theorem trim_exact_region (n : Nat) (a b : Int) :
-    trimDeviates n a b = false ↔
-      (0 ≤ Spec.normIdx n a ∧
-        ((n : Int) ≤ Spec.normIdx n a ∨ Spec.normIdx n a ≤ Spec.normIdx n b + 1)) ∨
-      (Spec.normIdx n a < 0 ∧
-        (n = 0 ∨ Spec.normIdx n b + 1 = Spec.normIdx n a ∨ (n : Int) ≤ Spec.normIdx n b + 1)) := by
-  unfold trimDeviates sliceDeviates
-  generalize Spec.normIdx n a = s
-  generalize Spec.normIdx n b = e
-  split <;> simp only [decide_eq_false_iff_not] <;> omega
-
-/-- in-range, ordered (or inverted by one) indexes never deviate -/
-theorem trim_ordinary_region_ordered (n : Nat) (a b : Int)
-    (ha : -(n : Int) ≤ a) (_ : a < n) (_ : -(n : Int) ≤ b) (_ : b < n)
-    (hab : Spec.normIdx n a ≤ Spec.normIdx n b + 1) : trimDeviates n a b = false := by
-  rw [trim_exact_region]
-  left
-  refine ⟨?_, Or.inr hab⟩
-  unfold Spec.normIdx
-  split <;> omega
+/-- `Range` is `Trim`'s window behind the Go shortcut, and the shortcut only fires where the window is
+empty anyway -/
+theorem range_eq_trim_window {α} (l : List α) (a b : Int) : modelRange l a b = modelTrimKeep l a b := by
+  rw [range_refines, trim_refines]; rfl
 
 /-! ### LINDEX / LSET -/
 
@@ -287,79 +187,41 @@ theorem offset_count_refines' {α} (l : List α) (off cnt : Int) :
 
 /-! ### LLEN against the full range -/
 
-theorem len_eq_full_range {α} (l : List α) : (Spec.lrange l 0 (-1)).length = l.length := by
-  have h : Spec.lrange l 0 (-1) = l := by
-    rw [← range_refines_partial l 0 (-1)]
-    · rw [modelRange_eq, modelTrimKeep_eq]
-      have hp : Model.rangePrecheck 0 (-1) = false := by decide
-      have h0 : Spec.normIdx l.length 0 = 0 := by unfold Spec.normIdx; simp
-      have h1 : Spec.normIdx l.length (-1) = (l.length : Int) - 1 := by
-        unfold Spec.normIdx; simp; omega
-      rw [hp, h0, h1, sqlLimit_eq_take]
-      have : ¬ ((l.length : Int) - 1 - 0 + 1 < 0) := by omega
-      simp only [Bool.false_eq_true, if_false, this]
-      rw [List.take_of_length_le] <;> simp
-    · unfold rangeDeviates trimDeviates sliceDeviates Spec.normIdx
-      simp
-      omega
-  rw [h]
-
 theorem full_range_is_list {α} (l : List α) : modelRange l 0 (-1) = l := by
-  have hd : rangeDeviates l.length 0 (-1) = false := by
-    unfold rangeDeviates trimDeviates sliceDeviates Spec.normIdx
-    simp
-    omega
-  have hl : (Spec.lrange l 0 (-1)).length = l.length := len_eq_full_range l
-  rw [range_refines_partial l 0 (-1) hd]
-  unfold Spec.lrange at hl ⊢
-  simp only [] at hl ⊢
-  split
-  · rename_i h
-    rw [if_pos h] at hl
-    exact (List.eq_nil_of_length_eq_zero hl.symm).symm
-  · rename_i h
-    rw [if_neg h] at hl
-    have h0 : (max (Spec.normIdx (↑l.length) 0) 0).toNat = 0 := by
-      have : Spec.normIdx (↑l.length) 0 = 0 := by unfold Spec.normIdx; simp
-      rw [this]; rfl
-    rw [h0, List.drop_zero] at hl ⊢
-    rw [List.length_take] at hl
-    exact List.take_of_length_le (by omega)
+  rw [modelRange_eq, modelTrimKeep_eq]
+  have hp : Model.rangePrecheck 0 (-1) = false := by decide
+  have h0 : Spec.normIdx l.length 0 = 0 := by unfold Spec.normIdx; simp
+  have h1 : Spec.normIdx l.length (-1) = (l.length : Int) - 1 := by
+    unfold Spec.normIdx; simp; omega
+  rw [hp, h0, h1, sqlLimit_eq_take]
+  have h2 : max 0 ((l.length : Int) - 1 - max 0 0 + 1) = l.length := by omega
+  have : ¬ ((l.length : Int) < 0) := by omega
+  simp only [Bool.false_eq_true, if_false, h2, this]
+  rw [List.take_of_length_le] <;> simp
+
+theorem len_eq_full_range {α} (l : List α) : (Spec.lrange l 0 (-1)).length = l.length := by
+  rw [← range_refines l 0 (-1), full_range_is_list]
 
 /-! ### non-vacuity -/
 
 section NonVacuity
 
 example : modelRange ['a', 'b', 'c', 'd'] 1 (-2) = Spec.lrange ['a', 'b', 'c', 'd'] 1 (-2) :=
-  range_refines_partial _ 1 (-2) (by decide)
+  range_refines _ 1 (-2)
 example : modelRange ['a', 'b', 'c', 'd'] 1 (-2) = ['b', 'c'] := by decide
-example : modelRange ['a', 'b', 'c'] 1 100 = Spec.lrange ['a', 'b', 'c'] 1 100 :=
-  range_refines_partial _ 1 100 (by decide)
-example : modelRange ['a', 'b', 'c'] (-5) 0 ≠ Spec.lrange ['a', 'b', 'c'] (-5) 0 :=
-  range_classifier_exact _ (-5) 0 (by decide)
-example : rangeDeviates 3 2 0 = true ↔
-    Model.rangePrecheck 2 0 = false ∧ Spec.normIdx (3 : Nat) 0 + 1 < Spec.normIdx (3 : Nat) 2 :=
-  range_ordinary_region 3 2 0 (by decide) (by decide)
-example : rangeDeviates 4 (-3) 2 = false :=
-  range_ordinary_region_ordered 4 (-3) 2 (by decide) (by decide) (by decide) (by decide) (by decide)
-example : rangeDeviates 3 2 0 = true := (range_nonneg_region 3 2 0 (by decide) (by decide)).2 (by decide)
-example : rangeDeviates 3 7 1000 = false := range_pos_stop_region 3 7 1000 (by decide) (by decide)
-example : rangeDeviates 3 (-5) 7 = false := (range_exact_region 3 (-5) 7).2 (by decide)
+example : modelRange ['a', 'b', 'c'] 1 100 = ['b', 'c'] := by decide
+example : modelRange ['a', 'b', 'c'] (-100) 100 = ['a', 'b', 'c'] := by decide
+example : rawSliceDeviates 3 2 0 = true ∧ rawSliceDeviates 3 (-2) 0 = true ∧
+    rawSliceDeviates 3 1 2 = false := by decide
+example : rawSliceDeviates 3 (-5) 7 = false := (raw_slice_exact_region 3 (-5) 7).2 (by decide)
 example : (Model.rangeWindow (some 3) (-5) 0 ['a', 'b', 'c']) ≠ none := range_window_defined _ _ _ _
-example : Model.rangeWindow none (-1) 0 ['a'] = none := (range_window_missing_key _ _ _).2 (by decide)
+example : Model.rangeWindow none (-1) 0 ([] : List Char) = some [] := range_window_missing_key _ _
+example : Model.rangeWindow none (-1) (-3) ['a'] ≠ none := range_window_defined _ _ _ _
 
 example : modelTrimKeep ['a', 'b', 'c', 'd'] (-3) 2 = Spec.ltrim ['a', 'b', 'c', 'd'] (-3) 2 :=
-  trim_refines_partial _ (-3) 2 (by decide)
+  trim_refines _ (-3) 2
 example : modelTrimKeep ['a', 'b', 'c', 'd'] (-3) 2 = ['b', 'c'] := by decide
-example : modelTrimKeep ['a', 'b', 'c'] 2 1 = Spec.ltrim ['a', 'b', 'c'] 2 1 :=
-  trim_refines_partial _ 2 1 (by decide)
-example : modelTrimKeep [0, 1, 2, 3, 4] 3 1 ≠ Spec.ltrim [0, 1, 2, 3, 4] 3 1 :=
-  trim_classifier_exact _ 3 1 (by decide)
-example : trimDeviates 5 3 1 = true ∧ rangeDeviates 5 3 1 = false := by decide
-example : trimDeviates 4 (-3) 2 = false :=
-  trim_ordinary_region_ordered 4 (-3) 2 (by decide) (by decide) (by decide) (by decide) (by decide)
-example : trimDeviates 3 5 1 = false := (trim_exact_region 3 5 1).2 (by decide)
-example : rangeDeviates 3 0 (-5) = true := (range_deviates_iff_trim 3 0 (-5)).2 (by decide)
+example : modelTrimKeep ['a', 'b', 'c'] 2 1 = [] := by decide
 
 example : modelIndex ['a', 'b', 'c'] (-1) = some 'c' := by decide
 example : modelIndex ['a', 'b', 'c'] (-1) = Spec.lindex ['a', 'b', 'c'] (-1) := index_refines _ _
